@@ -92,8 +92,8 @@ func execBig(c *core.Ctx, cs Case) {
 		c.Nontrivial()
 		return
 	}
-	a, b := &ringA{}, &ringB{}
 	fresh := map[int]bool{}
+	a, b := &ringA{fresh: fresh}, &ringB{fresh: fresh}
 	for i, op := range cs.Ops {
 		if (op.K == "RMove" || op.K == "RUnlink") && (op.B > 1<<25 || op.B < -(1<<25)) {
 			fail("harness: count too large for the reference implementation", fmt.Sprint(op))
@@ -121,7 +121,7 @@ func execBig(c *core.Ctx, cs Case) {
 				c.Count("count_small")
 			}
 		}
-		touch(fresh, op, ra)
+		touch(c, fresh, op, ra)
 		if i%every == every-1 {
 			sa, sb := a.observe(fresh), b.observe(fresh)
 			if !reflect.DeepEqual(sa, sb) {
